@@ -70,7 +70,25 @@ def run(pid, tier, seed, replay=None):
     samples.append({"kind": "one-property instances, every serializable descriptor",
                     "instances": [[i["class"], [p[0] for p in i["props"]]] for i in first["before"]["inst"]]})
     cleanup(trace, rep)
-    log("[%s] closure: %d default-populated classes, %d descriptor cases through rbx_binary" % (pid, n, n2))
+    # the same descriptors through the XML codec (default options), judged by XmlFormat.tla
+    import xml_checks
+    raw = os.path.join(OUT, "C16_xml_descriptors.ndjson")
+    rbxv(["xml-cases", "--mode", "descriptors", "--seed", seed], stdout_path=raw)
+    if quick:
+        lines = open(raw).readlines()
+        open(raw, "w").writelines([l for i, l in enumerate(lines) if (i + seed) % 3 == 0])
+    tok = raw + ".tok"
+    xml_checks.tokenise(raw, tok)
+    n3, xfails = validate_cases("XmlFormatTrace", tok, {"DBJSON": db, "CLAUSES": "roundtrip"})
+    total += n3
+    for c in xfails:
+        for k, cls, prop, what in (c.get("issues") or [[0, "", "", ""]]):
+            rep.violation("closure-xml|%s|%s.%s|%s" % (c["clause"], cls, prop, what),
+                          lambda c=c: {"case": c, "event": find_event(c["part"], c["ep"])},
+                          "%s: XML closure, clause %s: %s.%s %s" % (c["ep"], c["clause"], cls, prop, what))
+    cleanup(raw, rep)
+    cleanup(tok, rep)
+    log("[%s] closure: %d default-populated classes, %d descriptor cases through rbx_binary, %d through rbx_xml" % (pid, n, n2, n3))
 
     rc = rep.finish()
     cov = {"states": expected, "transitions": r.get("generated", expected), "traces_validated_against_impl": total,
